@@ -109,6 +109,16 @@ func (x *Exec) recordModelTerm(name string, v Val) {
 	case KSlice:
 		x.modelTerms["len("+name+")"] = v.Len
 		x.modelTerms["cap("+name+")"] = v.Cap
+		// the first elements of integer slices (byte strings): enough to rebuild short inputs for a replay on the real code
+		if st, ok := v.T.Underlying().(*types.Slice); ok && !strings.Contains(v.Arr, "?") {
+			if b, ok := st.Elem().Underlying().(*types.Basic); ok && b.Info()&types.IsInteger != 0 {
+				base := fmt.Sprintf("%s@%d", sanitize(elemKey(st.Elem())), 0)
+				x.decls.Const(base, "(Array Int (Array Int Int))")
+				for i := 0; i < 48; i++ {
+					x.modelTerms[fmt.Sprintf("%s[%d]", name, i)] = sSel(sSel(base, v.Arr), sAdd(v.Off, sInt(int64(i))))
+				}
+			}
+		}
 	}
 }
 
